@@ -288,6 +288,24 @@ func c08Mutants() []c08Mutant {
 		{name: "timestamp one hour ahead", build: func(e *c08Env) [][]byte {
 			return e.withPayload(func(p *goatxtypes.ExecutionPayload) bool { p.Timestamp += 3600; return true })
 		}},
+		{name: "timestamp two minutes ahead", build: func(e *c08Env) [][]byte {
+			return e.withPayload(func(p *goatxtypes.ExecutionPayload) bool { p.Timestamp += 120; return true })
+		}},
+		{name: "timestamp 2^31", build: func(e *c08Env) [][]byte {
+			return e.withPayload(func(p *goatxtypes.ExecutionPayload) bool { p.Timestamp = 1 << 31; return true })
+		}},
+		{name: "timestamp 2^32", build: func(e *c08Env) [][]byte {
+			return e.withPayload(func(p *goatxtypes.ExecutionPayload) bool { p.Timestamp = 1 << 32; return true })
+		}},
+		{name: "timestamp 2^63-1", build: func(e *c08Env) [][]byte {
+			return e.withPayload(func(p *goatxtypes.ExecutionPayload) bool { p.Timestamp = 1<<63 - 1; return true })
+		}},
+		{name: "timestamp 2^63", build: func(e *c08Env) [][]byte {
+			return e.withPayload(func(p *goatxtypes.ExecutionPayload) bool { p.Timestamp = 1 << 63; return true })
+		}},
+		{name: "timestamp 2^64-1", build: func(e *c08Env) [][]byte {
+			return e.withPayload(func(p *goatxtypes.ExecutionPayload) bool { p.Timestamp = ^uint64(0); return true })
+		}},
 		{name: "nil payload", build: func(e *c08Env) [][]byte {
 			return e.resign(nil, e.prop, e.h.ch.W.ValAddrStr(e.prop))
 		}},
